@@ -39,7 +39,11 @@ Theorem C12_source_facts :
   (* the temp file starts empty whatever an earlier run left there: its content is what THIS run wrote *)
   temp_open_truncate = true /\ temp_open_append = false /\ temp_open_create_new = false /\
   (* spawn_blocking inside the ordered stages is the only concurrency in the writers and the clone command *)
-  only_ordered_stage_concurrency = true.
+  only_ordered_stage_concurrency = true /\
+  (* the archive file starts empty too, whatever its path held: new when it may not exist, truncated when it may *)
+  (forall o, compress_open_truncate o = z_force_create o) /\
+  (forall o, compress_open_create_new o = negb (z_force_create o)) /\
+  (forall o, compress_open_append o = false).
 Proof. repeat split; reflexivity. Qed.
 
 Print Assumptions C12_input_delivery_irrelevant.
